@@ -3,6 +3,7 @@ package vrt
 import (
 	"sort"
 	"time"
+	"unsafe"
 )
 
 // The virtual clock only moves when harness code calls Advance.
@@ -139,6 +140,7 @@ func Advance(d time.Duration) {
 	}
 	s.now = target
 	s.epoch++
+	s.ev(s.cur, 0x65, unsafe.Pointer(&gClock), true)
 	// drop dead timers
 	live := s.timers[:0]
 	for _, t := range s.timers {
